@@ -581,6 +581,9 @@ func (c *Ctx) c04Oracle() error {
 			fmt.Fprintf(&sk, "func decl() %s { var x %s = %d; return x }\nvar g %s = %d\nfunc gdecl() %s { return g }\nconst cc %s = %d\nfunc cdecl() %s { return cc }\n", T, T, K, T, K, T, T, K, T)
 			fmt.Fprintf(&sk, "func par(a %s) %s { return a }\nfunc callk() %s { return par(%d) }\n", T, T, T, K)
 			fmt.Fprintf(&sk, "type S struct { F %s }\nfunc fk() %s { s := &S{F: %d}; return s.F }\nfunc ek() %s { s := []%s{%d}; return s[0] }\n", T, T, K, T, T, K)
+			// named constants declared without a type are untyped constants too
+			fmt.Fprintf(&sk, "const NK = %d\nconst NK2 = NK + 0\nfunc nkdecl() %s { var x %s = NK; return x }\nfunc nkop(a %s) %s { return a + NK2 }\nfunc nkpar() %s { return par(NK) }\nfunc nkret() %s { return NK }\n", K, T, T, T, T, T, T)
+			fmt.Fprintf(&sk, "func nkfld() %s { s := &S{F: NK}; return s.F }\nfunc nkel() %s { s := []%s{NK2}; return s[0] }\nfunc nkasg() %s { var x %s; x = NK; return x }\nfunc nklocal() %s { const lk = NK; var x %s = lk; return x }\n", T, T, T, T, T, T, T)
 			// results: a returned constant takes the declared RESULT type, whatever the parameters' types are
 			others := []string{"float64", "uint8", "int8", "uint32", "int", "string", "bool"}
 			for pi, P := range others {
@@ -588,6 +591,14 @@ func (c *Ctx) c04Oracle() error {
 				fmt.Fprintf(&sk, "func resb%d(p %s, q %s) (%s, %s) { return %d, %d }\nfunc rbcall%d() %s { var z %s; a, b := resb%d(z, z); _ = a; return b }\n", pi, P, P, T, T, K, K, pi, T, P, pi)
 			}
 			s := newScript(sk.String())
+			for _, fn := range []string{"nkdecl", "nkpar", "nkret", "nkfld", "nkel", "nkasg", "nklocal"} {
+				check("named-const", fmt.Sprintf("const NK = %d; %s as %s", K, fn, T), s.call(fn), fmt.Sprintf("%d:%s", K, T))
+			}
+			for _, a := range boundary(k, r, 2) {
+				if w, _ := goBinK(T, "+", a, K); w != "error" {
+					check("named-const", fmt.Sprintf("%s: %d + NK2 (= %d)", T, a, K), s.call("nkop", mkArg(T, a)), w+":"+T)
+				}
+			}
 			for pi, P := range others {
 				check("result-store", fmt.Sprintf("func(p %s) %s { return %d }", P, T, K), s.call(fmt.Sprintf("rcall%d", pi)), fmt.Sprintf("%d:%s", K, T))
 				check("result-store", fmt.Sprintf("func(p, q %s) (%s, %s) { return %d, %d }: second", P, T, T, K, K), s.call(fmt.Sprintf("rbcall%d", pi)), fmt.Sprintf("%d:%s", K, T))
@@ -645,6 +656,14 @@ func mix(a float64, b float64) bool { return !(a < b) == (a >= b) }
 func neg(a float64) float64 { return -a }
 func addk(a float64) float64 { return a + 1 }
 func ti(a float64) int { return int(a) }
+const FK = 3
+const FK2 = FK * 2 + 1
+func fkdecl() float64 { var f float64 = FK; return f / 2 }
+func fkasg() float64 { var f float64; f = FK2; return f / 2 }
+func fkret() float64 { return FK }
+func fkhalf() float64 { return fkret() / 2 }
+func fkop(a float64) float64 { return a / FK }
+func fkel() float64 { s := []float64{FK, FK2}; return s[1] / 2 }
 `)
 	fl := []float64{0, 1, -1, 0.5, 1.5, 2.5, -2.5, 1e21, 1e-5, 3.141592653589793, math.MaxFloat64, math.SmallestNonzeroFloat64, math.Inf(1), math.Inf(-1), math.NaN(), 1 << 53, 123456.789, math.Copysign(0, -1)}
 	nf := 10
@@ -675,6 +694,16 @@ func ti(a float64) int { return int(a) }
 		}
 		return fmt.Sprintf("bits:%016x", math.Float64bits(f))
 	}
+	for fn, w := range map[string]float64{"fkdecl": 1.5, "fkasg": 3.5, "fkhalf": 1.5, "fkel": 3.5} {
+		c.Rep.Oracle["named-const"]++
+		if got := fcall(fn); got != fb(w) {
+			c.Rep.Violate(Violation{Kind: "oracle", Cut: "named-const", Input: "const FK = 3; const FK2 = FK*2 + 1; " + fn + "()", Impl: got, Oracle: fb(w)})
+		}
+	}
+	c.Rep.Oracle["named-const"]++
+	if got := fcall("fkop", goat.Float64(1)); got != fb(1.0/3) {
+		c.Rep.Violate(Violation{Kind: "oracle", Cut: "named-const", Input: "const FK = 3; fkop(1) = 1 / FK", Impl: got, Oracle: fb(1.0 / 3)})
+	}
 	for _, a := range fl {
 		for _, b := range fl {
 			in := fmt.Sprintf("float64 %x,%x", math.Float64bits(a), math.Float64bits(b))
@@ -700,7 +729,7 @@ func ti(a float64) int { return int(a) }
 }
 
 func runC04(c *Ctx) error {
-	c.Rep.Rule = "num cut: (op, tagged operand pair) lines, 8-bit types exhaustive (256x256 per op), every ordered pair of kinds {untyped,uint8,int8,uint32,int32} on boundary+random values, float64 on special+random bit patterns, assign/convert/incdec/negate forms; oracle: script functions per type x syntactic position (var op var, x := a op b, a op= b, var op K, K op var, a op= K, ++/--, unary, typed var/const declaration, parameter/field/element/result stores with parameters of every other type, conversions) against native Go arithmetic; distinct = distinct protocol line / (position,type,operands)"
+	c.Rep.Rule = "num cut: (op, tagged operand pair) lines, 8-bit types exhaustive (256x256 per op), every ordered pair of kinds {untyped,uint8,int8,uint32,int32} on boundary+random values, float64 on special+random bit patterns, assign/convert/incdec/negate forms; oracle: script functions per type x syntactic position (var op var, x := a op b, a op= b, var op K, K op var, a op= K, ++/--, unary, typed var/const declaration, named constants without a type in every store position and as operands, parameter/field/element/result stores with parameters of every other type, conversions) against native Go arithmetic; distinct = distinct protocol line / (position,type,operands)"
 	if err := c.c04Corr(); err != nil {
 		return err
 	}
